@@ -1814,8 +1814,9 @@ class PGPKey(Armorable, ParentRef, PGPObject):
             yield self
             return
 
-        if not self.is_protected:
+        if not any(sk.is_protected for sk in itertools.chain([self], self.subkeys.values())):
             # we can't unprotect private keys that are not protected, because there is no ciphertext to decrypt
+            # (the primary key and its subkeys need not be protected alike: any protected component will do)
             warnings.warn("This key is not protected with a passphrase", stacklevel=3)
             yield self
             return
